@@ -364,16 +364,41 @@ fn choose_bits(rng: &mut Rng, prop: &str, tier: Tier, algo: Algo) -> u32 {
 }
 
 pub fn gen_spec(rng: &mut Rng, prop: &str, tier: Tier) -> Spec {
+    // debugging aid (never set by the registered commands): explore one given scenario
+    if let Ok(js) = std::env::var("VERIF_SPEC") {
+        let v: Value = serde_json::from_str(&js).expect("VERIF_SPEC is not JSON");
+        return Spec::from_json(&v);
+    }
     let algos = [Algo::Auto, Algo::Siqs, Algo::Mpqs, Algo::Qs, Algo::Ecm];
     let w: [u32; 5] = match prop {
         "C02" => [55, 17, 6, 10, 12],
         "C04" => [20, 45, 7, 10, 18],
-        "C05" => [25, 30, 8, 15, 22],
-        _ => [30, 30, 8, 15, 17],
+        "C05" => [32, 32, 8, 22, 6],
+        _ => [34, 32, 8, 20, 6],
     };
     let algo = algos[rng.weighted(&w)];
-    let bits = choose_bits(rng, prop, tier, algo);
+    let mut bits = choose_bits(rng, prop, tier, algo);
+    if prop == "C02" && algo != Algo::Auto {
+        bits = bits.max(66);
+    }
+    if (prop == "C05" || prop == "C01") && algo == Algo::Auto && rng.chance(0.2) {
+        // above 128 bits the automatic strategy runs threaded ECM (ecm_auto) before SIQS
+        bits = rng.range(129, 140) as u32;
+    }
+    // contention profile of C04: oversized factor base on a mid-size input and nothing else (the
+    // sieve then needs several "enough relations?" rounds and ends with fewer relations than
+    // factor base primes, the documented normal end state)
+    let oversized_profile = prop == "C04" && algo == Algo::Siqs && rng.chance(0.3);
+    if oversized_profile {
+        bits = rng.range(84, 106) as u32;
+    }
+    let mut tries = 0;
     let (primes, mut shape) = loop {
+        tries += 1;
+        if tries % 8 == 0 && !oversized_profile {
+            // this size cannot satisfy the constraints below: draw another one
+            bits = choose_bits(rng, prop, tier, algo).max(if prop == "C02" && algo != Algo::Auto { 66 } else { 8 });
+        }
         let (primes, shape) = if algo == Algo::Ecm {
             gen_number_ecm(rng, bits)
         } else {
@@ -424,7 +449,11 @@ pub fn gen_spec(rng: &mut Rng, prop: &str, tier: Tier) -> Spec {
         "C05" => 0.3,
         _ => 0.5,
     };
-    if matches!(algo, Algo::Siqs | Algo::Mpqs | Algo::Qs | Algo::Auto) && rng.chance(knob_p) {
+    if oversized_profile {
+        let d = default_fb(algo, &spec.n).max(16);
+        spec.fb_size = Some((d * *rng.pick(&[4u32, 6, 8, 10])).clamp(64, 20_000));
+        shape.push_str("+oversized_fb");
+    } else if matches!(algo, Algo::Siqs | Algo::Mpqs | Algo::Qs | Algo::Auto) && rng.chance(knob_p) {
         let d = default_fb(algo, &spec.n).max(16);
         if rng.chance(0.6) {
             let mult = *rng.pick(&[1u32, 2, 2, 4, 4, 8, 8, 0]);
@@ -491,8 +520,10 @@ pub fn gen_sim_cfg(rng: &mut Rng, ref_steps: u64, workers_hint: usize, faults: b
     c.num_threads_default = rng.range(1, 16) as usize;
     if faults {
         if rng.chance(0.5) {
-            c.stall_prob = *rng.pick(&[0.002, 0.01, 0.05]);
-            c.stall_max_len = *rng.pick(&[50u64, 500, 5000]);
+            c.stall_prob = *rng.pick(&[0.0, 0.0002, 0.001, 0.005]);
+            c.stall_prob_store = *rng.pick(&[0.05, 0.2, 0.5]);
+            // the last value means: until every other thread is blocked or finished
+            c.stall_max_len = *rng.pick(&[50u64, 500, 5000, 1 << 40]);
         }
         if rng.chance(0.5) {
             c.slow_max = *rng.pick(&[4u64, 8]);
@@ -845,9 +876,6 @@ impl Family for FactorFamily {
         let ref_steps = reference.sim.steps;
         let ref_polls = reference.sim.polls;
         let mut nsub = subruns(prop, tier);
-        rep.stat("ref_steps_max", 0);
-        let e = rep.stats.get_mut("ref_steps_max").unwrap();
-        *e = (*e).max(ref_steps);
         if spec.algo == Algo::Mpqs {
             // a threaded MPQS call drains a 100 000-item range: expensive, smaller share
             nsub = nsub.min(6);
@@ -856,11 +884,24 @@ impl Family for FactorFamily {
             // expensive scenario (deterministic criterion): fewer schedules
             nsub = nsub.min(4);
         }
+        if spec.algo == Algo::Ecm && (prop == "C05" || prop == "C01") {
+            nsub = nsub.min(if tier == Tier::Quick { 3 } else { 8 });
+        }
         let mut sub_id = 0u64;
         // C05 / C01: exhaustive enumeration of the poll-distinguishable flip instants, single-threaded
         if prop == "C05" || prop == "C01" {
             let p = ref_polls;
-            let instants: Vec<u64> = if prop == "C01" {
+            let instants: Vec<u64> = if spec.algo == Algo::Ecm {
+                // an aborted pure-ECM call still walks all nine B1 levels and builds each prime
+                // table (seconds of real time, no scheduling point): a few instants only
+                let mut v = match tier {
+                    Tier::Quick => vec![1, p / 2 + 1],
+                    Tier::Thorough => vec![1, 2, p / 3 + 1, p / 2 + 1, p, p + 1],
+                };
+                v.sort();
+                v.dedup();
+                v
+            } else if prop == "C01" {
                 // C01 samples a few instants only (C05 owns the enumeration)
                 let mut v = vec![1, p / 2 + 1, p + 1];
                 v.dedup();
